@@ -58,6 +58,20 @@ R7  5 + 6 + 2 + 3: case analysis over the complete finite vocabulary of the disp
     the member).  The folded name is compared with the documented one (`on_` + member name without `COMMAND_`, lower
     case) for every member - a complete table comparison.  No input is chosen by the checker: the cases are exactly the
     values for which `Enum(command_id)` does not raise.  A name that does not fold to a single constant: undecided.
+R8  5 + 2 + 3: the sleep settings the client is *configured* with.  Subjects by role: the `self.<attr>` get_sleep_time computes
+    its result from (def-use chain of the returned expression) that run() stores, and the override: the optional keyword
+    of run() (default None) that carries the attribute's name in the public API, else the one optional parameter that
+    flows into that store (def-use chain).  Case analysis over the finite vocabulary
+    "override given (not None) and truthy" / "given and falsy" (5: None / not None, boolean flag; the None case is R6's
+    settings source).  Per case the branch edges whose test the case decides are removed from a copy of the CFG (2), locals
+    and `self.<attr>` stores are followed along the reaching definitions of the pruned CFG, and/or/conditional expressions
+    are resolved operand by operand (3: path-wise value flow, undecided tests keep both outcomes).  The necessary
+    condition: in both cases every value run() may leave in the attribute is the parameter itself.  Only values that do
+    not depend on the parameter -> violated (the override is discarded); a value computed from the parameter by
+    operations that are not followed, or a mix -> undecided.  Lemmas (each one line):
+      L8  the number 0 is not None and falsy, and it is a sleeptime / a jitter the property quantifies over (band = a point)
+      L9  a falsy number equals 0, a truthy number differs from 0   (truthiness of int / float is `!= 0`)
+      L10 int(x) = x and float(x) = x for a number x
 """
 
 from __future__ import annotations
@@ -135,12 +149,15 @@ def run(ctx):
         "length interval of the metadata info bytes against 128-11-59; the sleep time as a polynomial normal form, affine in "
         "one uniform draw, whose values at the ends of the draw's range are compared with the jitter band; the name under "
         "which get_handlers looks up the on_<command> method, constant-folded per member of BeaconCommand (the dispatcher's "
-        "complete vocabulary) and compared with the documented name.  No /repo code is run or interpreted on data chosen by "
+        "complete vocabulary) and compared with the documented name; the value run() leaves in the attributes get_sleep_time "
+        "reads, followed path-wise for the two cases of a *given* override parameter (not None and truthy / not None and 0): "
+        "it must be the parameter itself, i.e. the choice between override and beacon setting is decided by None-ness only.  No /repo code is run or interpreted on data chosen by "
         "the checker: the beacon id is the top integer, the names are strings of unknown length, the command cases are the "
         "enum members parsed from c_c2.py."
     )
     rep.not_decided = ["behaviour of the loop against a live server", "that handlers themselves behave",
-                       "the on_empty_task lookup for the empty task (command id None / a falsy member)"]
+                       "the on_empty_task lookup for the empty task (command id None / a falsy member)",
+                       "that callers (the command line) hand the user's sleeptime / jitter to run() unchanged"]
     rep.trusted_base = [
         "CPython ast", "networkx dominators", "interval/parity/length domains and SymPoly in csverif/absint.py",
         "may-alias / mutation analysis in csverif/alias.py",
@@ -153,6 +170,8 @@ def run(ctx):
         "Enum(value).name is the first name defined for the value; an IntEnum member is truthy iff its value is non-zero; "
         "CPython's own str methods applied to constant operands (constant folding)",
         "random.uniform(a, b) lies between a and b, random.random() in [0, 1]; an affine function of a draw in [lo, hi] ranges between its values at lo and hi",
+        "0 is a number that is not None and falsy, and a sleeptime / jitter of 0 is a configuration the property quantifies over; a falsy number equals 0, "
+        "a truthy number differs from 0; int(x) = x and float(x) = x for a number x; stores of self.sleeptime / self.jitter outside run() are not part of the configuration step",
     ]
     r1(ctx)
     r2(ctx)
@@ -161,6 +180,7 @@ def run(ctx):
     r5(ctx)
     r6(ctx)
     r7(ctx)
+    r8(ctx)
 
 
 # ------------------------------------------------------------------------------------------------ generic helpers
@@ -178,13 +198,14 @@ def _loads(e):
 
 def _chain_nodes(fn, e, all_defs=False):
     """Every AST node of expression `e` and - through local names - of the expressions that define them (node identity
-    is kept, unlike `inline`).  With all_defs every definition of a multiply-defined local is followed (may-flow)."""
+    is kept, unlike `inline`).  With all_defs every definition of a multiply-defined local - and of a parameter that is
+    rebound in the function - is followed (may-flow)."""
     out, seen = [], set()
 
     def go(x, depth):
         for n in ast.walk(x):
             out.append(n)
-            if isinstance(n, ast.Name) and isinstance(n.ctx, ast.Load) and n.id not in params(fn) and n.id not in seen and depth < 8:
+            if isinstance(n, ast.Name) and isinstance(n.ctx, ast.Load) and (all_defs or n.id not in params(fn)) and n.id not in seen and depth < 8:
                 defs = [v for _s, v in assignments_to(fn, n.id) if v is not None]
                 if defs and (all_defs or len(assignments_to(fn, n.id)) == 1):
                     seen.add(n.id)
@@ -1732,3 +1753,341 @@ def r7(ctx):
         ctx.ob("R7", "VOCAB", g, text, True,
                f"for each of the {checked} commands (distinct values of {enum_fq.split('.')[-1]}) the method handler is looked up as on_<command name without {MEMBER_PREFIX}, lower case>"
                + (f"; not covered: {skipped}" if skipped else ""), sites[0])
+
+
+# ------------------------------------------------------------------------------------------------ R8
+_ENTRY_DEF = object()
+
+
+def _state_key(e):
+    """'name' for a local / parameter, 'self.attr' for an attribute of the client object, else None"""
+    if isinstance(e, ast.Name):
+        return e.id
+    if isinstance(e, ast.Attribute) and isinstance(e.value, ast.Name) and e.value.id == "self":
+        return "self." + e.attr
+    return None
+
+
+def _is_none(e):
+    return isinstance(e, ast.Constant) and e.value is None
+
+
+class _OverrideCase:
+    """Path-wise value flow through one function for ONE case of an optional numeric parameter P that is *given*:
+    `P is not None` and bool(P) == `truthy` (the cases None / not None, truthy / falsy of a parameter are a finite
+    vocabulary; the falsy case is inhabited by the number 0).  Branch edges whose test is decided by the case are removed
+    from a copy of the CFG, locals and `self.<attr>` stores are followed along the reaching definitions of the pruned CFG,
+    and/or/conditional expressions are resolved operand by operand.  Nothing is executed: a test the case does not decide
+    stays unknown and both outcomes are kept."""
+
+    def __init__(self, ctx, f, P, truthy, prune=True):
+        self.ctx, self.f, self.fn, self.P, self.truthy = ctx, f, f.node, P, truthy
+        self.fv = FuncView.of(self.fn)
+        base = ctx.cfg(f)
+        self.cfg = copy.copy(base)
+        self.cfg.g = base.g.copy()
+        self.cfg._idom = None
+        self.cfg._ipdom = None
+        # the bindings of a key do not depend on the case: shared between the cases of one function
+        self._defs = ctx.__dict__.setdefault("_c19_state_defs", {}).setdefault(id(self.fn), {})
+        if prune:
+            self._prune()
+
+    # ---- definitions of a local / of self.<attr> inside the function
+    def defs(self, key):
+        if key in self._defs:
+            return self._defs[key]
+        out = []
+        if not key.startswith("self."):
+            for st, v in assignments_to(self.fn, key):
+                s = st if isinstance(st, ast.stmt) else self.fv.stmt_of(st)
+                out.append((s, v))
+        else:
+            attr = key[5:]
+
+            def hit(t):
+                return _is_self_attr(t, attr)
+
+            for st in statements(self.fn):
+                if isinstance(st, ast.Assign):
+                    for t in st.targets:
+                        if hit(t):
+                            out.append((st, st.value))
+                        elif isinstance(t, (ast.Tuple, ast.List)) and any(hit(x) for x in ast.walk(t)):
+                            if isinstance(st.value, (ast.Tuple, ast.List)) and len(t.elts) == len(st.value.elts) and not any(isinstance(x, ast.Starred) for x in t.elts):
+                                out.extend((st, ve) for te, ve in zip(t.elts, st.value.elts) if hit(te))
+                                if not any(hit(te) for te in t.elts):
+                                    out.append((st, None))
+                            else:
+                                out.append((st, None))
+                elif isinstance(st, ast.AnnAssign) and st.value is not None and hit(st.target):
+                    out.append((st, st.value))
+                elif isinstance(st, ast.AugAssign) and hit(st.target):
+                    out.append((st, None))
+                elif isinstance(st, (ast.For, ast.AsyncFor)) and any(hit(x) for x in ast.walk(st.target)):
+                    out.append((st, None))
+                elif isinstance(st, (ast.With, ast.AsyncWith)) and any(it.optional_vars is not None and any(hit(x) for x in ast.walk(it.optional_vars)) for it in st.items):
+                    out.append((st, None))
+                elif isinstance(st, ast.Expr) and isinstance(st.value, ast.Call) and dotted(st.value.func) == "setattr" and len(st.value.args) == 3 \
+                        and _is_name(st.value.args[0], "self") and _c(st.value.args[1]) == attr:
+                    out.append((st, st.value.args[2]))
+        self._defs[key] = out
+        return out
+
+    def reaching(self, key, at):
+        """[(statement | _ENTRY_DEF, value | None)]: the definitions of `key` that reach statement `at` in the pruned CFG;
+        None when `key` is never bound in the function (a global, an attribute this function does not store)"""
+        cfg = self.cfg
+        defs = self.defs(key)
+        is_param = key in params(self.fn)
+        if not defs and not is_param:
+            return None
+        if at is None or not cfg.has(at):
+            raise _Unk(f"use of `{key}` outside the CFG")
+        use = cfg.node(at)
+        nodes = []
+        for s, v in defs:
+            if s is None or not cfg.has(s):
+                raise _Unk(f"binding of `{key}` outside the CFG")
+            nodes.append((cfg.edge_node(s, "iter") if isinstance(s, (ast.For, ast.AsyncFor)) else cfg.node(s), s, v))
+        all_nodes = [n for n, _s, _v in nodes]
+        out = []
+        for n, s, v in nodes:
+            if not cfg.reaches(ENTRY, n):
+                continue
+            if n == use and not cfg.in_cycle(n):
+                continue  # the defining statement reads the key on its right-hand side: reached by the others only
+            if cfg.reaches(n, use, avoiding=[x for x in all_nodes if x != n]):
+                out.append((s, v))
+        if cfg.reaches(ENTRY, use, avoiding=all_nodes) or use == ENTRY:
+            out.append((_ENTRY_DEF, None))
+        return out
+
+    # ---- the values an expression may have: {(kind, text)}, kind P (the given parameter itself) / OTHER (a value that
+    # does not depend on the parameter) / FUNC (computed from the parameter) / UNK (not followed)
+    def alts(self, e, at, depth=0):
+        if depth > 14:
+            return {("UNK", src(e)[:50])}
+        while isinstance(e, ast.Call) and dotted(e.func) in ("cast", "typing.cast") and len(e.args) == 2:
+            e = e.args[1]
+        if isinstance(e, ast.NamedExpr):
+            return self.alts(e.value, at, depth + 1)
+        if isinstance(e, ast.Call) and dotted(e.func) in ("int", "float") and len(e.args) == 1 and not e.keywords and not isinstance(e.args[0], ast.Starred):
+            return self.alts(e.args[0], at, depth + 1)  # int(x) = x, float(x) = x for a number x
+        if isinstance(e, ast.IfExp):
+            t = self.truth(e.test, at, depth + 1)
+            out = set()
+            if t is not False:
+                out |= self.alts(e.body, at, depth + 1)
+            if t is not True:
+                out |= self.alts(e.orelse, at, depth + 1)
+            return out
+        if isinstance(e, ast.BoolOp):
+            stop_on = isinstance(e.op, ast.Or)  # `a or b` is a when a is truthy, `a and b` is a when a is falsy
+            out = set()
+            for v in e.values[:-1]:
+                t = self.truth(v, at, depth + 1)
+                if t is None:
+                    out |= self.alts(v, at, depth + 1)
+                elif t == stop_on:
+                    return out | self.alts(v, at, depth + 1)
+            return out | self.alts(e.values[-1], at, depth + 1)
+        key = _state_key(e)
+        if key is not None and isinstance(getattr(e, "ctx", None), ast.Load):
+            try:
+                rd = self.reaching(key, at)
+            except _Unk as ex:
+                return {("UNK", str(ex))}
+            if rd is None:
+                return {("OTHER", key)}
+            out = set()
+            for s, v in rd:
+                if s is _ENTRY_DEF:
+                    out.add(("P", key) if key == self.P else ("OTHER", key))
+                elif v is None:
+                    out.add(("UNK", src(s)[:50]))
+                else:
+                    out |= self.alts(v, s, depth + 1)
+            return out or {("UNK", key)}
+        if isinstance(e, ast.Constant):
+            return {("OTHER", src(e)[:50])}
+        return {("FUNC" if self.depends(e, at, depth + 1) else "OTHER", src(e)[:60])}
+
+    def depends(self, e, at, depth):
+        """may the value of the compound expression `e` depend on the given parameter?"""
+        skip = set()
+        for n in ast.walk(e):
+            if id(n) in skip:
+                continue
+            key = _state_key(n)
+            if key is None or key == "self" or not isinstance(getattr(n, "ctx", None), ast.Load):
+                continue
+            if isinstance(n, ast.Attribute):
+                skip.add(id(n.value))
+            if any(k != "OTHER" for k, _t in self.alts(n, at, depth + 1)):
+                return True
+        return False
+
+    # ---- three-valued truth of a test under the case
+    def _number(self, e, at, depth):
+        """the number `e` is known to be under the case: 0 for the parameter in the falsy case (a falsy number is 0),
+        constants; else None"""
+        k = _c(e)
+        if isinstance(k, (int, float)) and not isinstance(k, bool):
+            return k
+        if not self.truthy and {kd for kd, _t in self.alts(e, at, depth + 1)} == {"P"}:
+            return 0
+        return None
+
+    def truth(self, t, at, depth=0):
+        if depth > 14:
+            return None
+        if isinstance(t, ast.UnaryOp) and isinstance(t.op, ast.Not):
+            v = self.truth(t.operand, at, depth + 1)
+            return None if v is None else (not v)
+        if isinstance(t, ast.BoolOp):
+            vals = [self.truth(v, at, depth + 1) for v in t.values]
+            if isinstance(t.op, ast.And):
+                return False if any(v is False for v in vals) else True if all(v is True for v in vals) else None
+            return True if any(v is True for v in vals) else False if all(v is False for v in vals) else None
+        if isinstance(t, ast.NamedExpr):
+            return self.truth(t.value, at, depth + 1)
+        if isinstance(t, ast.Call) and dotted(t.func) == "bool" and len(t.args) == 1 and not t.keywords:
+            return self.truth(t.args[0], at, depth + 1)
+        if isinstance(t, ast.Compare):
+            parts = compare_parts(t, mirrored=False)
+            if len(parts) > 1:
+                vals = [self._compare(l, op, r, at, depth) for l, op, r in parts]
+                return False if any(v is False for v in vals) else True if all(v is True for v in vals) else None
+            return self._compare(*parts[0], at, depth)
+        if isinstance(t, ast.Constant):
+            return bool(t.value)
+        kinds = {k for k, _t in self.alts(t, at, depth + 1)}
+        if kinds == {"P"}:
+            return self.truthy
+        key = _state_key(t)
+        if key is not None and isinstance(getattr(t, "ctx", None), ast.Load):
+            # a flag computed earlier: the truth of its reaching definitions, when they agree
+            try:
+                rd = self.reaching(key, at)
+            except _Unk:
+                return None
+            if rd and all(s is not _ENTRY_DEF and v is not None for s, v in rd):
+                vals = {self.truth(v, s, depth + 1) for s, v in rd}
+                if len(vals) == 1:
+                    return vals.pop()
+        return None
+
+    def _compare(self, l, op, r, at, depth):
+        if _is_none(l) and not _is_none(r):
+            l, r = r, l
+        if _is_none(r) and isinstance(op, (ast.Is, ast.IsNot, ast.Eq, ast.NotEq)):
+            if _is_none(l):
+                return isinstance(op, (ast.Is, ast.Eq))
+            if {k for k, _t in self.alts(l, at, depth + 1)} == {"P"}:
+                return isinstance(op, (ast.IsNot, ast.NotEq))  # the case: the parameter is given
+            return None
+        a, b = self._number(l, at, depth), self._number(r, at, depth)
+        if a is not None and b is not None:
+            table = {ast.Eq: a == b, ast.NotEq: a != b, ast.Lt: a < b, ast.LtE: a <= b, ast.Gt: a > b, ast.GtE: a >= b}
+            return table.get(type(op))
+        if self.truthy and isinstance(op, (ast.Eq, ast.NotEq)):
+            # a truthy number is not 0
+            for x, y in ((l, b), (r, a)):
+                if y == 0 and {k for k, _t in self.alts(x, at, depth + 1)} == {"P"}:
+                    return isinstance(op, ast.NotEq)
+        return None
+
+    def _prune(self):
+        for _round in range(4):
+            changed = False
+            for n, st in list(self.cfg.stmt.items()):
+                if not isinstance(st, (ast.If, ast.While)) or not self.cfg.reaches(ENTRY, n):
+                    continue
+                t = self.truth(st.test, st)
+                if t is None:
+                    continue
+                dead = self.cfg.edge_node(st, "false" if t else "true")
+                if self.cfg.g.has_edge(n, dead):
+                    self.cfg.g.remove_edge(n, dead)
+                    changed = True
+            if not changed:
+                break
+
+    def final_stores(self, key):
+        """the stores of `key` whose value is the one the function leaves behind on some path of the pruned CFG"""
+        cfg = self.cfg
+        live = [(s, v) for s, v in self.defs(key) if s is not None and cfg.has(s) and cfg.reaches(ENTRY, cfg.node(s))]
+        nodes = [cfg.node(s) for s, _v in live]
+        return [(s, v) for s, v in live if cfg.reaches(cfg.node(s), EXIT, avoiding=[x for x in nodes if x != cfg.node(s)])]
+
+
+def r8(ctx):
+    """An explicit override of a sleep setting is the value the client sleeps by: for every attribute that get_sleep_time
+    computes the interval from and run() configures from an optional parameter, the value run() leaves in the attribute
+    is the parameter itself whenever the parameter is given (not None) - also when the given number is 0."""
+    g = ctx.repo.func("client.HttpBeaconClient.get_sleep_time")
+    run_f = ctx.repo.func("client.HttpBeaconClient.run")
+    fn = run_f.node
+    # the attributes of the client the returned sleep time is computed from
+    read = []
+    for ret in [s for s in statements(g.node) if isinstance(s, ast.Return) and s.value is not None]:
+        for n in _chain_nodes(g.node, ret.value, all_defs=True):
+            if isinstance(n, ast.Attribute) and isinstance(n.ctx, ast.Load) and isinstance(n.value, ast.Name) and n.value.id == "self" and n.attr not in read:
+                read.append(n.attr)
+    defaults = {}
+    a = fn.args
+    pos = list(a.posonlyargs) + list(a.args)
+    for p, d in zip(pos[len(pos) - len(a.defaults):], a.defaults):
+        defaults[p.arg] = d
+    for p, d in zip(a.kwonlyargs, a.kw_defaults):
+        if d is not None:
+            defaults[p.arg] = d
+    optional = {p for p, d in defaults.items() if _is_none(d)}
+    subjects = 0
+    for attr in read:
+        key = "self." + attr
+        text = f"an explicit {attr} override is the {attr} the client sleeps by"
+        stores = _OverrideCase(ctx, run_f, "", True, prune=False).defs(key)
+        if not stores:
+            continue
+        subjects += 1
+        # the override: the optional parameter of run() that flows into the attribute
+        flow = set()
+        for _s, v in stores:
+            if v is not None:
+                flow |= {n.id for n in _chain_nodes(fn, v, all_defs=True) if isinstance(n, ast.Name) and isinstance(n.ctx, ast.Load) and n.id in optional}
+        if attr in optional:
+            flow = {attr}  # the keyword of the public API that carries the override, even when it no longer flows into the attribute
+        if len(flow) != 1:
+            ctx.undecided("R8", "AGREE", run_f, text, f"the optional parameter of run() that overrides self.{attr} was not located (candidates: {sorted(flow)})")
+            continue
+        P = next(iter(flow))
+        lost, vague, kept = [], [], []
+        for truthy, label in ((True, "a non-zero number"), (False, "0")):
+            case = _OverrideCase(ctx, run_f, P, truthy)
+            finals = case.final_stores(key)
+            if not finals:
+                vague.append(f"{P} = {label}: no store of self.{attr} is reached")
+                continue
+            vals = set()
+            for s, v in finals:
+                vals |= {("UNK", src(s)[:50])} if v is None else case.alts(v, s)
+            kinds = {k for k, _t in vals}
+            if kinds == {"P"}:
+                kept.append(label)
+            elif kinds == {"OTHER"}:
+                lost.append(f"for {P} = {label} (given, not None) run() leaves `{'` / `'.join(sorted(t for _k, t in vals))[:90]}` in self.{attr}")
+            else:
+                vague.append(f"{P} = {label}: self.{attr} may be " + ", ".join(sorted(f"{'the override' if k == 'P' else t}" for k, t in vals))[:120])
+        if lost:
+            ctx.ob("R8", "AGREE", run_f, text, False,
+                   f"the explicit override is discarded: {'; '.join(lost)} - get_sleep_time() then draws from a band that is not the configured one "
+                   f"(the selection between override and beacon setting must be decided by `{P} is None`, not by a test that a given number can fail)")
+        elif vague:
+            ctx.undecided("R8", "AGREE", run_f, text, "whether the given override reaches the attribute unchanged is not determined: " + "; ".join(vague))
+        else:
+            ctx.ob("R8", "AGREE", run_f, text, True, f"for a given `{P}` (not None; cases {', '.join(kept)}) the value run() leaves in self.{attr} is the parameter itself")
+    if not subjects:
+        ctx.undecided("R8", "AGREE", run_f, "an explicit override is the value the client sleeps by",
+                      f"run() stores none of the attributes get_sleep_time reads ({read}); the configuration of the sleep settings was not located")
